@@ -19,12 +19,13 @@ type c06probe struct {
 	desc     string
 	class    string // offset/content class, part of violation signatures
 	wire     []byte
-	behav    int // 0 idle forever, 1 FIN at tf, 2 trickle garbage until shortly before the deadline then idle
-	finFrac  int // tf = T*finFrac/10
-	auth     bool // ground truth: the opening bytes authenticate
+	behav    int    // 0 idle forever, 1 FIN at tf, 2 trickle garbage until shortly before the deadline then idle
+	finFrac  int    // tf = T*finFrac/10
+	auth     bool   // ground truth: the opening bytes authenticate
 	postAuth string // "", "bad-address", "bad-chunk", "incomplete"
 	needsTgt bool
 	replayOf int // index of an earlier probe whose bytes are replayed (-1 none)
+	nextTrue int // for truncated streams: the byte the valid stream would continue with (-1 none)
 	key      *Key
 
 	c         *simnet.TCPConn
@@ -39,7 +40,7 @@ type c06probe struct {
 
 // chunk layout helper: returns wire bytes and the offsets of interest.
 type c06layout struct {
-	wire                              []byte
+	wire                                         []byte
 	salt, lenEnd, lenTagEnd, pay1End, pay1TagEnd int
 }
 
@@ -74,7 +75,7 @@ func runC06(rc *RunCtx) {
 	probes := make([]*c06probe, nP)
 	tgtIP := net.IPv4(93, 184, 216, 34).To4()
 	for k := range probes {
-		p := &c06probe{k: k, replayOf: -1}
+		p := &c06probe{k: k, replayOf: -1, nextTrue: -1}
 		key := keys[G.Draw(len(keys))]
 		p.key = key
 		addr := socksAddr(fmt.Sprintf("%s:%d", tgtIP, 8000+k))
@@ -98,6 +99,9 @@ func runC06(rc *RunCtx) {
 				cut = len(lay.wire)
 			}
 			p.wire = lay.wire[:cut]
+			if cut < len(lay.wire) {
+				p.nextTrue = int(lay.wire[cut])
+			}
 			p.class = "truncated"
 			// The server needs 50 bytes before it tries any key.
 			if cut >= 50 {
@@ -173,6 +177,15 @@ func runC06(rc *RunCtx) {
 			for src.replayOf >= 0 {
 				src = probes[src.replayOf]
 			}
+			if src.class == "truncated" {
+				// whether a truncated stream authenticates depends on what each client
+				// sends afterwards; keep replays to sources with a fixed verdict
+				p.replayOf = -1
+				p.wire = payload(G, 60)
+				p.class = "random"
+				p.desc = "random 60 bytes (instead of replaying a truncated stream)"
+				continue
+			}
 			p.wire = src.wire
 			p.key = src.key
 			if src.auth {
@@ -223,10 +236,17 @@ func runC06(rc *RunCtx) {
 			}
 			p.c = cc
 			p.connectAt = simrt.Elapsed()
+			first := true
 			write := func(b []byte) {
 				if len(b) == 0 {
 					return
 				}
+				if !first && p.nextTrue >= 0 && p.sent == len(p.wire) {
+					// garbage after a truncated stream must not accidentally continue it
+					// (the true continuation depends on the client's random salt)
+					b[0] = byte(p.nextTrue) ^ 0x5a
+				}
+				first = false
 				if err := writeSegmented(G, cc, b, 3); err != nil && p.writeErr == nil {
 					p.writeErr = err
 				}
